@@ -49,6 +49,9 @@ class G(object):
     def newlabel(self, kind):
         self.nlabel += 1
         name = '%s:%s%d' % (kind, self.r.choice(['a', 'b', 'x-', 'l']), self.nlabel)
+        if self.o.get('wide_labels') and self.r.random() < self.o['wide_labels']:
+            # label names LaTeX accepts beyond [a-z0-9:-]: blanks, capitals, dots, underscores-free punctuation
+            name = self.r.choice(['%s two %d', 'Main %s%d', '%s.%d', 'the %s no %d', '%s+%d', "%s'%d"]) % (kind, self.nlabel)
         if self.o.get('hostile_labels') and kind == 'sec' and self.r.random() < self.o['hostile_labels']:
             # labels that collide with static template names, with numbered names, or with each other once forbidden characters are replaced
             free = [x for x in (self.o.get('hostile_pool') or HOSTILE_LABELS) if x not in self.labels]
@@ -194,8 +197,12 @@ class G(object):
                         cell['group'] = True
                         if not cell['c']:
                             cell['c'] = [self.text()]
+                if r.random() < 0.12 and not any(k in cell for k in ('decl', 'nested', 'group')):
+                    cell['c'] = []          # an empty cell (header corner, continuation row)
                 cells.append(cell)
                 c += span
+            if not any(cell['c'] or 'nested' in cell for cell in cells):
+                cells[-1]['c'] = [self.text()]      # never a row without any text: plasTeX drops rows that hold rules only (documented)
             row = {'cells': cells, 'hline': r.random() < 0.3, 'cline': None}
             if rich and not row['hline'] and r.random() < 0.25:
                 # a \cline aligned with the cell boundaries of this row
